@@ -49,17 +49,16 @@ NonZeroMonotone(en) ==
 AllZero(en) == \A j \in 1..Len(en) : en[j] = 0
 
 \* derived data for the hook clauses: which variant the documentation promises, the distinct
-\* positions and the advance ranks of each table
+\* positions and the advance nodes of each table
 Aux(s, en) ==
   LET om == PI!OpenMonotone(s)
       em == NonZeroMonotone(en)
-      fe == IF em THEN PI!Filled(en) ELSE <<>>
+      oai == IF om THEN PI!AdvIdx("open", s) ELSE <<>>
+      eai == IF em THEN PI!AdvIdx("end", en) ELSE <<>>
   IN [ocompact |-> om,
       ecompact |-> em,
-      ouniq |-> IF om THEN PI!Uniq("open", s) ELSE <<>>,
-      ourank |-> IF om THEN PI!URank("open", s) ELSE <<0>>,
-      euniq |-> IF em THEN PI!Uniq("end", fe) ELSE <<>>,
-      eurank |-> IF em THEN PI!URank("end", fe) ELSE <<0>>,
+      oai |-> oai, ouniq |-> PI!UniqAt(s, oai),
+      eai |-> eai, euniq |-> PI!UniqAt(en, eai),
       \* EndPositions::build: an all-zero table becomes the empty compact table
       en |-> IF em /\ ~AllZero(en) THEN Len(en) ELSE 0]
 
@@ -87,9 +86,9 @@ HookOk(e) ==
     /\ (Len(e.co) = 6) <=> aux.ocompact                                   \* Compact iff monotone
     /\ (Len(e.ce) = 6) <=> aux.ecompact
     /\ Len(e.co) = 6 =>
-          PI!ListCursorInv(aux.ouniq, aux.ourank, Len(starts), 64, Cur(e.co))
+          PI!ListCursorInv(aux.ouniq, aux.oai, Len(starts), 64, Cur(e.co))
     /\ Len(e.ce) = 6 =>
-          PI!ListCursorInv(aux.euniq, aux.eurank, aux.en, 64, Cur(e.ce))
+          PI!ListCursorInv(aux.euniq, aux.eai, aux.en, 64, Cur(e.ce))
     /\ Len(e.co) \in {0, 6} /\ Len(e.ce) \in {0, 6}
 
 \* "huge" arguments (logged -1) are beyond every table
